@@ -292,8 +292,9 @@ impl HeaderMetadataSpec {
                         success_order,
                         failure_order,
                     )
-                    .map(|x| FromPrimitive::from_u8(x).unwrap())
-                    .map_err(|x| FromPrimitive::from_u8(x).unwrap())
+                    // Return the previous value of this field only, not the whole byte.
+                    .map(|x| FromPrimitive::from_u8(self.get_bits_from_u8(x)).unwrap())
+                    .map_err(|x| FromPrimitive::from_u8(self.get_bits_from_u8(x)).unwrap())
             }
         } else {
             let addr = self.meta_addr(header);
@@ -306,7 +307,7 @@ impl HeaderMetadataSpec {
                 (old_metadata, new_metadata)
             };
 
-            unsafe {
+            let res = unsafe {
                 T::compare_exchange(
                     addr,
                     old_metadata,
@@ -314,6 +315,12 @@ impl HeaderMetadataSpec {
                     success_order,
                     failure_order,
                 )
+            };
+            // With a mask, only the masked bits belong to this field.
+            if let Some(mask) = optional_mask {
+                res.map(|x| x.bitand(mask)).map_err(|x| x.bitand(mask))
+            } else {
+                res
             }
         }
     }
